@@ -14,11 +14,7 @@ import c02_gen as G
 MAX_POLL = 20          # ParseMessages handles at most 20 frames per call (documented behaviour, part of the property's quantifier)
 
 # confirmed defects that are not repaired (yet): key -> line printed as KNOWN-FINDING.  Reported to the lead; moves to known_findings.json.
-PENDING_KNOWN = {
-    'complete-stale': 'C02 stale duplicate slot: FindFreeCANMsgIndex takes the first slot that is free OR has the key, so a new first frame of (PGN,source,destination) can be '
-                      'stored below an unfinished slot of the same key; the stale slot stays occupied until the 100 ms eviction and complete messages of other senders are '
-                      'refused although no more senders than slots are active',
-}
+PENDING_KNOWN = {}
 
 
 def frames_of(ops):
